@@ -824,6 +824,13 @@ impl Read for VirtualSystem {
         async move {
             let ofd = ofd?;
             #[cfg(feature = "verif-hooks")]
+            if matches!(ofd.borrow().inode().borrow().body, FileBody::Regular { .. })
+                && !buffer.is_empty()
+                && let Some(errno) = sim_hook::fail_io(system.process_id, fd, false)
+            {
+                return Err(errno);
+            }
+            #[cfg(feature = "verif-hooks")]
             let buffer = {
                 let is_fifo = matches!(ofd.borrow().inode().borrow().body, FileBody::Fifo { .. });
                 let n = sim_hook::clamp(system.process_id, fd, false, buffer.len(), is_fifo);
@@ -879,6 +886,13 @@ impl Write for VirtualSystem {
         let system = self.clone();
         async move {
             let ofd = ofd?;
+            #[cfg(feature = "verif-hooks")]
+            if matches!(ofd.borrow().inode().borrow().body, FileBody::Regular { .. })
+                && !buffer.is_empty()
+                && let Some(errno) = sim_hook::fail_io(system.process_id, fd, true)
+            {
+                return Err(errno);
+            }
             #[cfg(feature = "verif-hooks")]
             let buffer = {
                 let is_fifo = matches!(ofd.borrow().inode().borrow().body, FileBody::Fifo { .. });
